@@ -45,6 +45,19 @@ histogram "extent:*:patch_pairs_holding_pairs:*" says, from the positions alone,
 pairs relate to the extents (ordinary / either-side / one-sided / bridge, see props/c13_extents.py).  Model:
 Model/Invariance.v linked_count / covers / link_sym / reach; Props/C13.v C13_linked_count_relabel_extents,
 C13_linked_count_additive_extents(_first), C13_reach_covers, C13_one_sided_link_refuted.
+
+Catalog SIZE together with row order (scenarios "large", props/c13_big.py, run first): all of the above use catalogs of a few
+dozen rows, so nothing the code might do differently for large inputs - patch metadata (centre, radius: they decide the linkage)
+taken from a part of the rows, rows at chunk boundaries, trees of a subset - is reached.  There one catalog (ref / unk / rand)
+has one or two patches of 2*10^5 .. 10^6 rows: a tight core plus ONE row far out whose position in the table is drawn (first,
+last, odd / even, chunk boundary, ...) and which alone decides that two patches have to be visited.  Checked: the metadata of
+every patch created against their definitions over ALL rows (radius, covering, row count, weight sum, centre), twins (rows
+permuted / reversed / shifted by one / sorted / the far row moved, rotation, relabelling), splits into smaller catalogs, every
+count table against a brute-force count over all pairs, and the linkage against the patch pairs that hold counted pairs.
+Model: Model/InvarianceSize.v (radius_all, radius_sub, radius_probe, reach_by, c13_meta_case, c13_links_case); Props/C13.v
+C13_radius_row_perm, C13_radius_chunks, C13_radius_covers / _least, C13_reach_row_perm, C13_link_row_perm,
+C13_linked_count_all_rows(_perm, _split), C13_radius_sub_lower_bound, C13_radius_probe_small_sizes,
+C13_radius_stride_order_refuted, C13_radius_first_rows_order_refuted, C13_probe_link_refuted.
 """
 import math
 import os
@@ -57,9 +70,12 @@ from lib import floatq as fq
 from lib import impl
 from props.c01 import offset, cluster, scale_of, to_int, thr2, chord, d2, near_tie
 from props import c13_extents as cx
+from props import c13_big
 
 ALLOWED_AXIOMS = []
-TRUSTED = ["rotation matrices are applied by the harness in float64; near ties are filtered with exact integer chords of the implementation's unit vectors"]
+TRUSTED = ["rotation matrices are applied by the harness in float64; near ties are filtered with exact integer chords of the implementation's unit vectors",
+           "large patches (props/c13_big.py): unit vectors, separations, the largest separation per block of 65536 rows and the brute-force pair counts "
+           "are computed by the harness in float64 numpy from the degrees it hands over; near ties are filtered on these squared chords (10^-7 relative)"]
 ASSUMPTIONS = ["weights are dyadic (small set times a power of two per catalog); weight factors 2^k (|k| <= 60) are exact, other factors "
                "(3, 1e-10, 1e-8, 1e10, m*10^u) are compared to 2^-40 of the largest entry wherever the base run holds a number",
                "where the base run (exact sums of dyadic numbers) holds 0/0 or x/0 - a jackknife sample that leaves nothing in a bin - the twin after "
@@ -67,13 +83,20 @@ ASSUMPTIONS = ["weights are dyadic (small set times a power of two per catalog);
                "rounding residual (seen: norm 2.6e-23 instead of 0, nan turns into inf); counted as degenerate_sample_differs_after_inexact_factor",
                "input conventions: right ascensions are finite values within three periods of [0, period) (the code has no range check on them), "
                "declinations within [-90 deg, 90 deg]; a twin in another convention moves the stored unit vectors by rounding errors only, so it is "
-               "filtered for near ties and compared exactly, like a rotation"]
+               "filtered for near ties and compared exactly, like a rotation",
+               "large patches: the stored radius is compared to 2^-30 relative with the largest separation of any row from the stored centre (two float64 "
+               "routes agree to about 10^-12 there), a centre computed as a mean over up to 10^6 rows to 2^-20 of the radius; weights are multiples of 1/2 "
+               "(all sums exact); autocorrelations of a catalog with a large patch are not run (counting inside a core of 10^5+ rows takes minutes)"]
 RULE = ("cases = (base scenario, transformation in {rotation, row shuffle, centre permutation, weight factor on one of ref/unk/rand, 2-split, "
         "input convention: field (base / cut by the RA=0 meridian / laid along it / on a pole) x unit (deg / rad) x RA range (canonical / signed / +-period / "
         "own multiple per object) x catalogs (all / one) x centres (canonical / re-expressed)}), "
         "plus scenarios with an own extent per catalog and patch (data beyond / inside the randoms, one sparse catalog, any of the three the largest, "
         "centre gaps at the limit of the linkage) x {rotation, row shuffle, reversed and drawn centre permutation, split of any catalog (even / uneven)}; "
-        "each compared as measured and after CorrFunc.to_file/from_file; distinct by scenario seed + transformation parameters; "
+        "plus scenarios with one or two patches of 2*10^5 .. 10^6 rows in one catalog (tight core + one far row at a drawn row position that alone links two "
+        "patches; given centres / patch ids; ingest chunk size drawn) x {base, rows shuffled / reversed / shifted by one / sorted / far row moved, rotation, "
+        "relabelling, split of the large catalog (random, even-odd, halves)}, each with metadata of every patch against their definitions over all rows and "
+        "count tables against brute force; "
+        "each compared as measured and after CorrFunc.to_file/from_file (large patches: as measured); distinct by scenario seed + transformation parameters; "
         "non-trivial when the base measurement has non-zero counts")
 HEADER = "From Verif Require Import Prelude Invariance.\nOpen Scope Q_scope.\n"
 
@@ -358,6 +381,26 @@ def cleanup(res):
 
 
 def run(ctx):
+    """the family with large patches first (props/c13_big.py; its shards are evaluated while the other families run, and
+    reported whatever happens to those), then everything else"""
+    import threading
+    import yaw
+    impl.set_threads(1)
+    np.seterr(all="ignore")
+    big_terms, big_report = c13_big.run_big(ctx, yaw, c13_big.EDGES)
+    ctx.log("large patches: %d terms" % len(big_terms))
+    box = {}
+    th = threading.Thread(target=lambda: box.update(codes=ctx.shards("Cases_C13_large", c13_big.HEADER, big_terms, shard=60)))
+    th.start()
+    try:
+        run_small(ctx)
+    finally:
+        th.join()
+        if box.get("codes") is not None:
+            big_report(box["codes"])
+
+
+def run_small(ctx):
     import yaw
     rng = ctx.rng
     impl.set_threads(1)
